@@ -1117,7 +1117,7 @@ fn r16() -> impl Strategy<Value = u16> {
 }
 
 pub fn subgroup_pt() -> BoxedStrategy<PtSpec> {
-    prop_oneof![
+    let sub = prop_oneof![
         1 => Just(F::zero()),
         2 => Just(F::one()),
         1 => Just(f_of(RJ_MOD.sub(U256::ONE).0)),
@@ -1125,6 +1125,13 @@ pub fn subgroup_pt() -> BoxedStrategy<PtSpec> {
         3 => fe_random().prop_map(|f| f.0),
     ]
     .prop_map(PtSpec::sub)
+    .boxed();
+    // a fifth of the points are handed over in a consistent NON-normalised
+    // extended representation (Z != 1): same point, other coordinates
+    prop_oneof![
+        4 => sub,
+        1 => (fe_random(), crate::fe::fe_nonzero()).prop_map(|(k, z)| PtSpec { kind: 3, k, t: 0, x: Fe(F::zero()), y: Fe(F::zero()), z }),
+    ]
     .boxed()
 }
 
